@@ -143,7 +143,7 @@ def run(ck):
         # (2) ordered pairs: digest after [a, b] must equal the warm state
         if heap:
             names = [n for n in L if n.startswith(('out:', 'opt:', 'cfg:', 'flt:exclude_spawns_of:zz', 'ds:cgroup:99', 'ds:env_all', 'exec:'))] if ck.tier == 'quick' else list(L)
-            ex = hist.Explorer(v['h_exec'], symfile, os.path.join(ck.workdir, 'pairs'), ['sinks pipe', 'lean 1'], {n: L[n] for n in names}, warmup=['cfg ' + H.hx(('[snoopy]\nmessage_format = %s\nsyslog_ident = %%{username}\noutput = file:log\n' % c03.ALL_DS).encode()), 'call execve h2f77 [h77] [] -1 2', 'cfg ' + H.hx(b'[snoopy]\noutput = stdout\n'), 'call execve h2f77 [h77] [] -1 2', 'cfg ' + H.hx(b'[snoopy]\noutput = stderr\n'), 'call execve h2f77 [h77] [] -1 2', 'cfg ' + H.hx(b'[snoopy]\noutput = devtty\n'), 'call execve h2f77 [h77] [] -1 2'])   # warm-up touches every data source: libc caches (NSS, tz, locale) settle here
+            ex = hist.Explorer(v['h_exec'], symfile, os.path.join(ck.workdir, 'pairs'), ['sinks pipe', 'lean 1', 'errno -1'], {n: L[n] for n in names}, warmup=['cfg ' + H.hx(('[snoopy]\nmessage_format = %s\nsyslog_ident = %%{username}\noutput = file:log\n' % c03.ALL_DS).encode()), 'call execve h2f77 [h77] [] -1 2', 'cfg ' + H.hx(b'[snoopy]\noutput = stdout\n'), 'call execve h2f77 [h77] [] -1 2', 'cfg ' + H.hx(b'[snoopy]\noutput = stderr\n'), 'call execve h2f77 [h77] [] -1 2', 'cfg ' + H.hx(b'[snoopy]\noutput = devtty\n'), 'call execve h2f77 [h77] [] -1 2'])   # warm-up touches every data source: libc caches (NSS, tz, locale) settle here
             pairs = [(a, b) for a in names for b in names]
             if ck.tier == 'quick':
                 pairs = [(a, b) for a, b in pairs if a.startswith(('out:', 'opt:')) ]
